@@ -918,7 +918,10 @@ CHECKS = dict(echo=chk_echo, resync=chk_resync, overflow=chk_overflow, idle_disc
 def run_check(ctx, drv, prop, check, args):
     """args: list of str / other json values; report a failure with a replayable witness"""
     ctx.evaluations += 1
-    res = CHECKS[check](drv, *args)
+    try:
+        res = CHECKS[check](drv, *args)
+    except Exception as ex:     # the probe itself broke on what the implementation returned: report the input
+        res = ('probe_crash', 'oracle probe raised %s: %s' % (type(ex).__name__, str(ex)[:120]))
     if res:
         klass, what = res
         klass = getattr(drv, 'classify', lambda k, a: k)(klass, args)
@@ -940,6 +943,9 @@ def oracle(ctx, sim, prop):
     term = drv.terminators[0]
     for w in getattr(drv, 'witnesses', {}).get(prop, []):      # refuted-theorem witnesses first
         run_check(ctx, drv, prop, w[0], list(w[1]))
+    for w in corpus_cases(prop, sim):                           # minimised past (false) alarms: run first, every run
+        run_check(ctx, drv, prop, w['check'], [tuple(a) if isinstance(a, list) and w['check'] == 'write' and i == 5
+                                               else a for i, a in enumerate(w['args'])])
     if prop == 'c03':
         nh = nonheader_bytes(drv)
         for i in range(n):
@@ -987,6 +993,21 @@ def oracle(ctx, sim, prop):
     ctx.oracle_stats['%s_%s' % (prop, sim)] = n
 
 
+def corpus_cases(prop, sim):
+    """/verif/corpus/<CXX>/sma_*.json : {"sim": ..., "check": ..., "args": [...], "note": ...}"""
+    import json
+    import os
+    d = os.path.join(os.path.dirname(os.path.dirname(os.path.dirname(os.path.abspath(__file__)))), 'corpus', prop.upper())
+    out = []
+    if os.path.isdir(d):
+        for f in sorted(os.listdir(d)):
+            if f.startswith('sma_') and f.endswith('.json'):
+                w = json.load(open(os.path.join(d, f)))
+                if w.get('sim') == sim and w.get('check') in CHECKS:
+                    out.append(w)
+    return out
+
+
 def replay(ctx, obj, sim, prop):
     w = obj.get('witness', {})
     if w.get('sim') != sim or w.get('check') not in CHECKS:
@@ -996,4 +1017,7 @@ def replay(ctx, obj, sim, prop):
     if w['check'] == 'write':       # json turned tuples into lists
         args[5] = tuple(args[5]) if isinstance(args[5], list) else args[5]
         args[6] = [unhx(x) for x in w.get('quiet_hex', [])] if 'quiet_hex' in w else args[6]
-    return CHECKS[w['check']](drv, *args) is not None
+    try:
+        return CHECKS[w['check']](drv, *args) is not None
+    except Exception:
+        return True
